@@ -290,6 +290,7 @@ def fc_table(assignment: Dict[str, bool]) -> Dict[str, Any]:
 # ContentEvaluationResult based ones, bound through the evaluator_factory helpers
 # -------------------------------------------------------------------------------------------------
 _cer_var: ContextVar = ContextVar("vf_content_evaluation_result", default=None)
+_CER_TLP = None
 
 
 def make_cer(rc: Dict[str, str], fc: Dict[str, bool], hints: Dict[str, Optional[str]], fc_msg: Optional[Dict[str, Optional[str]]] = None, packages: Optional[Dict[str, str]] = None):
@@ -331,10 +332,13 @@ def install_cer_based() -> None:
     from ahbicht.content_evaluation.evaluator_factory import create_content_evaluation_result_based_evaluators
     from ahbicht.content_evaluation.token_logic_provider import SingletonTokenLogicProvider
 
-    evaluators = create_content_evaluation_result_based_evaluators(FORMAT, VERSION)
+    global _CER_TLP  # pylint:disable=global-statement
+    if _CER_TLP is None:
+        # ONE set of evaluator instances for the whole process, as in an application: only the evaluatable data change from call to call
+        _CER_TLP = SingletonTokenLogicProvider([*create_content_evaluation_result_based_evaluators(FORMAT, VERSION)])
 
     def configure(binder):
-        binder.bind(TokenLogicProvider, SingletonTokenLogicProvider([*evaluators]))
+        binder.bind(TokenLogicProvider, _CER_TLP)
         binder.bind_to_provider(EvaluatableDataProvider, _provide_cer_data)
 
     inject.clear_and_configure(configure)
